@@ -137,6 +137,19 @@ structure Opts where
   a : AnnotOpts := {}
   paired : Bool := false
   mode : String := "forward"
+  pmSet : Bool := false
+  hasAnnot : Bool := false
+
+/-- a string that can be one argv word after an option -/
+def argOK (s : String) : Bool :=
+  s ≠ "" && s.front ≠ '-' && !(s.contains '\n') && !(s.contains '\t')
+
+def canonInt (x : String) : Option Int :=
+  match x.toInt? with
+  | some n => if toString n = x && n ≤ 2100000000 && n ≥ -2100000000 then some n else none
+  | none => none
+
+def argS (x : String) : Option String := (unhexS x).bind fun s => if argOK s then some s else none
 
 def pair2 (s : String) : Option (String × String) :=
   match s.splitOn ":" with
@@ -146,44 +159,58 @@ def pair2 (s : String) : Option (String × String) :=
     pure (a, b)
   | _ => none
 
+def mapKV (x : String) : Option (String × String) :=
+  (pair2 x).bind fun kv =>
+    if argOK kv.1 && !(kv.1.contains '=') && kv.2 ≠ "" && !(kv.2.contains '=') then some kv else none
+
+def markA (o : Opts) : Opts := { o with hasAnnot := true }
+
 def parseOpt (o : Opts) (w : String) : Option Opts :=
   match w.splitOn "=" with
+  | ["long"] => some o
+  | ["bs", x] => (canonInt x).bind fun n => if 1 ≤ n && n ≤ 50 then some o else none
+  | ["w", x] => (canonInt x).bind fun n => if 1 ≤ n && n ≤ 8 then some o else none
   | ["v"] => some { o with g := { o.g with invert := true } }
   | ["indel"] => some { o with g := { o.g with patternIndel := true } }
   | ["fwd"] => some { o with g := { o.g with patternOnlyForward := true } }
   | ["paired"] => some { o with paired := true }
-  | ["clear"] => some { o with a := { o.a with clearAll := true } }
-  | ["len"] => some { o with a := { o.a with setSeqLength := true } }
-  | ["l", x] => x.toInt?.map fun n => { o with g := { o.g with minLength := n } }
-  | ["L", x] => x.toInt?.map fun n => { o with g := { o.g with maxLength := n } }
-  | ["c", x] => x.toInt?.map fun n => { o with g := { o.g with minCount := n } }
-  | ["C", x] => x.toInt?.map fun n => { o with g := { o.g with maxCount := n } }
-  | ["pe", x] => x.toInt?.map fun n => { o with g := { o.g with patternError := n } }
-  | ["i", x] => x.toInt?.map fun n => { o with g := { o.g with notBelongTaxa := o.g.notBelongTaxa ++ [n] } }
-  | ["s", x] => (unhexS x).map fun s => { o with g := { o.g with seqPatterns := o.g.seqPatterns ++ [s] } }
-  | ["D", x] => (unhexS x).map fun s => { o with g := { o.g with defPatterns := o.g.defPatterns ++ [s] } }
-  | ["I", x] => (unhexS x).map fun s => { o with g := { o.g with idPatterns := o.g.idPatterns ++ [s] } }
-  | ["A", x] => (unhexS x).map fun s => { o with g := { o.g with requiredAttrs := o.g.requiredAttrs ++ [s] } }
-  | ["p", x] => (unhexS x).map fun s => { o with g := { o.g with predicates := o.g.predicates ++ [s] } }
-  | ["r", x] => (unhexS x).map fun s => { o with g := { o.g with belongTaxa := o.g.belongTaxa ++ [s] } }
-  | ["rank", x] => (unhexS x).map fun s => { o with g := { o.g with requiredRanks := o.g.requiredRanks ++ [s] } }
-  | ["ap", x] => (unhexS x).map fun s => { o with g := { o.g with approxPatterns := o.g.approxPatterns ++ [s] } }
-  | ["a", x] => (pair2 x).map fun kv => { o with g := { o.g with attrPatterns := mapPut kv.1 kv.2 o.g.attrPatterns } }
+  | ["clear"] => some (markA { o with a := { o.a with clearAll := true } })
+  | ["len"] => some (markA { o with a := { o.a with setSeqLength := true } })
+  | ["l", x] => (canonInt x).map fun n => { o with g := { o.g with minLength := n } }
+  | ["L", x] => (canonInt x).map fun n => { o with g := { o.g with maxLength := n } }
+  | ["c", x] => (canonInt x).map fun n => { o with g := { o.g with minCount := n } }
+  | ["C", x] => (canonInt x).map fun n => { o with g := { o.g with maxCount := n } }
+  | ["pe", x] => (canonInt x).bind fun n =>
+      if 0 ≤ n && n ≤ 3 then some { o with g := { o.g with patternError := n } } else none
+  | ["i", x] => (canonInt x).map fun n => { o with g := { o.g with notBelongTaxa := o.g.notBelongTaxa ++ [n] } }
+  | ["s", x] => (argS x).map fun s => { o with g := { o.g with seqPatterns := o.g.seqPatterns ++ [s] } }
+  | ["D", x] => (argS x).map fun s => { o with g := { o.g with defPatterns := o.g.defPatterns ++ [s] } }
+  | ["I", x] => (argS x).map fun s => { o with g := { o.g with idPatterns := o.g.idPatterns ++ [s] } }
+  | ["A", x] => (argS x).map fun s => { o with g := { o.g with requiredAttrs := o.g.requiredAttrs ++ [s] } }
+  | ["p", x] => (argS x).map fun s => { o with g := { o.g with predicates := o.g.predicates ++ [s] } }
+  | ["r", x] => (argS x).map fun s => { o with g := { o.g with belongTaxa := o.g.belongTaxa ++ [s] } }
+  | ["rank", x] => (argS x).map fun s => { o with g := { o.g with requiredRanks := o.g.requiredRanks ++ [s] } }
+  | ["ap", x] => (argS x).map fun s => { o with g := { o.g with approxPatterns := o.g.approxPatterns ++ [s] } }
+  | ["a", x] => (mapKV x).map fun kv => { o with g := { o.g with attrPatterns := mapPut kv.1 kv.2 o.g.attrPatterns } }
   | ["idl", x] =>
       if x = "-" then some { o with g := { o.g with idList := some [] } }
-      else ((x.splitOn ",").mapM unhexS).map fun ids => { o with g := { o.g with idList := some ids } }
-  | ["pm", x] => some { o with mode := x }
-  | ["setid", x] => (unhexS x).map fun s => { o with a := { o.a with setId := s } }
-  | ["del", x] => (unhexS x).map fun s => { o with a := { o.a with toBeDeleted := o.a.toBeDeleted ++ [s] } }
-  | ["keep", x] => (unhexS x).map fun s => { o with a := { o.a with keepOnly := o.a.keepOnly ++ [s] } }
-  | ["ren", x] => (pair2 x).map fun kv => { o with a := { o.a with toBeRenamed := mapPut kv.1 kv.2 o.a.toBeRenamed } }
-  | ["tag", x] => (pair2 x).map fun kv => { o with a := { o.a with evalAttribute := mapPut kv.1 kv.2 o.a.evalAttribute } }
+      else ((x.splitOn ",").mapM fun h => (unhexS h).bind fun s =>
+              if s ≠ "" && s.trimAscii.toString = s && !(s.contains '\n') && !(s.contains '\r') then some s else none).map
+            fun ids => { o with g := { o.g with idList := some ids } }
+  | ["pm", x] => (argS x).bind fun m =>
+      if m.any (fun c => c = ':' || c = ',' || c = ';' || c = '|') then none else some { o with mode := m, pmSet := true }
+  | ["setid", x] => (argS x).map fun s => markA { o with a := { o.a with setId := s } }
+  | ["del", x] => (argS x).map fun s => markA { o with a := { o.a with toBeDeleted := o.a.toBeDeleted ++ [s] } }
+  | ["keep", x] => (argS x).map fun s => markA { o with a := { o.a with keepOnly := o.a.keepOnly ++ [s] } }
+  | ["ren", x] => (mapKV x).map fun kv => markA { o with a := { o.a with toBeRenamed := mapPut kv.1 kv.2 o.a.toBeRenamed } }
+  | ["tag", x] => (mapKV x).map fun kv => markA { o with a := { o.a with evalAttribute := mapPut kv.1 kv.2 o.a.evalAttribute } }
   | ["cut", x] =>
       match x.splitOn ":" with
       | [a, b] => do
-        let a ← a.toInt?
-        let b ← b.toInt?
-        pure { o with a := { o.a with cut := (a, b) } }
+        let a ← canonInt a
+        let b ← canonInt b
+        if a > 1000000 || a < -1000000 || b > 1000000 || b < -1000000 then none
+        else pure (markA { o with a := { o.a with cut := (a, b) } })
       | _ => none
   | _ => none
 
@@ -215,6 +242,33 @@ def runAnnot (o : Opts) (recs : List (Rec × Option Rec)) (T : Tab) : String :=
     | .panic => "panic"
     | .fatal => "fatal")
 
+def showIds (l : List String) : String := if l.isEmpty then "-" else ",".intercalate l
+
+def idOK (s : String) : Bool := s ≠ "" && s.all fun c => c.isAlphanum || c = '_'
+def seqOK (q : List UInt8) : Bool := !q.isEmpty && q.all fun b => 97 ≤ b && b ≤ 122
+
+/-- end to end (`CLIFilterSequence` + writers): the ids of the kept / discarded files, in order.
+`DivideOn` and the writers are the business of C03/C04: here the stream is its list of records. -/
+def runGrepIO (o : Opts) (recs : List (Rec × Option Rec)) (T : Tab) : String :=
+  let O := grepOracles T
+  let all := recs.flatMap fun (r, m) => r :: m.toList
+  if !(all.all fun r => idOK r.id && seqOK r.seq) then "bad-op"
+  else if all.any (fun r => o.g.predicates.any fun e => (O.evalBool e r).isNone) then "bad-op"
+  else
+    match parseMode o.mode with
+    | none => "bad-op"
+    | some m =>
+      let p := cliPredicate O o.g
+      let verdict := fun (rm : Rec × Option Rec) =>
+        if o.paired then pairedEval m p rm.1 rm.2 else p.eval rm.1
+      let kept := recs.filter fun rm => verdict rm == some true
+      let disc := recs.filter fun rm => verdict rm == some false
+      let mates := fun (l : List (Rec × Option Rec)) => l.filterMap fun rm => rm.2.map (·.id)
+      if o.paired then
+        s!"kept1={showIds (kept.map (·.1.id))} kept2={showIds (mates kept)} disc1={showIds (disc.map (·.1.id))} disc2={showIds (mates disc)}"
+      else
+        s!"kept={showIds (kept.map (·.1.id))} disc={showIds (disc.map (·.1.id))}"
+
 def both (f : Tab → String) (t : List (String × String)) : String :=
   let a := f ⟨t, false⟩
   let b := f ⟨t, true⟩
@@ -226,11 +280,21 @@ def run (line : String) : String :=
     match words head, parseRecs recs with
     | "grep" :: ws, some rs =>
       match parseOpts ws with
-      | some o => both (runGrep o rs) (parseTable tab)
+      | some o =>
+        if o.hasAnnot || rs.any (fun rm => rm.2.isSome != o.paired) then "bad-op"
+        else both (runGrep o rs) (parseTable tab)
+      | none => "bad-op"
+    | "grepio" :: ws, some rs =>
+      match parseOpts ws with
+      | some o =>
+        if o.hasAnnot || rs.any (fun rm => rm.2.isSome != o.paired) then "bad-op"
+        else both (runGrepIO o rs) (parseTable tab)
       | none => "bad-op"
     | "annot" :: ws, some rs =>
       match parseOpts ws with
-      | some o => both (runAnnot o rs) (parseTable tab)
+      | some o =>
+        if o.paired || o.pmSet || rs.any (fun rm => rm.2.isSome) then "bad-op"
+        else both (runAnnot o rs) (parseTable tab)
       | none => "bad-op"
     | _, _ => "bad-op"
   | [head, recs] =>
